@@ -24,10 +24,12 @@ LEVEL_TEXT = ("Bounded contract on Pipeline.map(..., run_folder=F): for generate
               "= id, by induction), the file a later process looks at for element l. Serialisation (cloudpickle/json) "
               "and the file system are outside the proof rung, so the property is decided on the bounded rung: "
               "'exploration'.")
+LEVEL_TEXT += (' Also proved: RunInfo.storage_class (the per-output storage choice) and _maybe_persist_memory (with persist_memory=True every storage array of the store is persisted exactly once before map returns, nothing otherwise, other entries untouched; StorageBase.persist is an assumed contract with a ghost counter).')
 LEVEL_NOTE = ("Bounds: programs of rtc.progs.gen_map_program (1..3 functions, rank<=2, sizes 1..3). Trusted: cloudpickle, "
               "json, the reference denotation. The fresh interpreter is /verif/.venv/bin/python with the same sys.path.")
 TECHNIQUE = ("bounded contract checking incl. a fresh-interpreter postcondition; FileArray._key_to_file (element -> file) "
              "discharged by z3 with lemma L4")
+TECHNIQUE += ('; RunInfo.storage_class and _maybe_persist_memory discharged by z3')
 EXPLANATION = LEVEL_TEXT
 RULE = ("program x storage configuration; distinct = distinct (program, storage); non-trivial = some output array has "
         ">=2 elements")
